@@ -89,6 +89,8 @@ pub unsafe extern "C" fn getenv(name: *const c_char) -> *mut c_char {
 // ---------------------------------------------------------------------------------------------
 
 thread_local! {
+    /// wall clocks (CLOCK_REALTIME and its coarse variant) can also be stepped backwards; monotonic clocks never
+    static WALL_SKEW_NS: Cell<i128> = const { Cell::new(0) };
     static CLOCK_SKEW_NS: Cell<i128> = const { Cell::new(0) };
     static CLOCK_READS: Cell<u64> = const { Cell::new(0) };
 }
@@ -119,7 +121,10 @@ pub unsafe extern "C" fn clock_gettime(clk: i32, ts: *mut Timespec) -> i32 {
         let on_replica = ENTROPY.try_with(|e| e.get().is_some()).unwrap_or(false);
         if on_replica {
             let _ = CLOCK_READS.try_with(|c| c.set(c.get() + 1));
-            let skew = CLOCK_SKEW_NS.try_with(|c| c.get()).unwrap_or(0);
+            let mut skew = CLOCK_SKEW_NS.try_with(|c| c.get()).unwrap_or(0);
+            if matches!(clk, 0 | 5) {
+                skew += WALL_SKEW_NS.try_with(|c| c.get()).unwrap_or(0);
+            }
             if skew != 0 {
                 let total = (*ts).tv_sec as i128 * 1_000_000_000 + (*ts).tv_nsec as i128 + skew;
                 (*ts).tv_sec = (total / 1_000_000_000) as i64;
@@ -133,6 +138,11 @@ pub unsafe extern "C" fn clock_gettime(clk: i32, ts: *mut Timespec) -> i32 {
 /// simulated time passes on this thread (called by a slow byte source)
 pub fn advance_clock(secs: u64) {
     CLOCK_SKEW_NS.with(|c| c.set(c.get() + secs as i128 * 1_000_000_000));
+}
+
+/// the wall clock of this thread is stepped back (an NTP correction, a VM resume); monotonic time is untouched
+pub fn step_wall_clock_back(secs: u64) {
+    WALL_SKEW_NS.with(|c| c.set(c.get() - secs as i128 * 1_000_000_000));
 }
 
 /// how often the code running on this thread read a clock
